@@ -397,15 +397,22 @@ class vDDDLists:
             dt_list = [dt_list]
         vDDD = []
         tzid = None
+        value = None
         for dt in dt_list:
             dt = vDDDTypes(dt)
             vDDD.append(dt)
             if 'TZID' in dt.params:
                 tzid = dt.params['TZID']
+            if 'VALUE' in dt.params:
+                value = dt.params['VALUE']
 
-        if tzid:
-            # NOTE: no support for multiple timezones here!
-            self.params = Parameters({'TZID': tzid})
+        if tzid or value:
+            # NOTE: no support for multiple timezones or mixed value types here!
+            self.params = Parameters()
+            if tzid:
+                self.params['TZID'] = tzid
+            if value:
+                self.params['VALUE'] = value
         self.dts = vDDD
 
     def to_ical(self):
